@@ -87,6 +87,18 @@ func checkC18(p *Prog, r *Report) {
 						return false
 					})
 				}
+				if !okG {
+					// the bound was established for every element by a first pass over the same slice (an extracted size/bound helper)
+					if lc, ok := cv.X.(*ssa.Call); ok && len(lc.Call.Args) == 1 {
+						if u, ok := lc.Call.Args[0].(*ssa.UnOp); ok {
+							if ia, ok := u.X.(*ssa.IndexAddr); ok {
+								if sp, call := sizePassBefore(fn, cv, ia.X); sp != nil && sp.Bound <= 255 && sp.Bound >= 0 {
+									okG, w = true, fmt.Sprintf("%s returned a nil error for the same slice: every element has len <= %d", FuncName(call.Call.StaticCallee()), sp.Bound)
+								}
+							}
+						}
+					}
+				}
 				r.Check(okG, kp("CONV", FuncName(fn)+"#uint8(len)≤255"), "conversion guard: a length is narrowed to one byte only under a dominating length <= 255 fact (longer components are rejected, never truncated)", p.Pos(cv.Pos()), w,
 					"the narrowing conversion "+cv.String()+" is not dominated by a <=255 bound: a 256-byte component is silently encoded with length 0")
 				// the rejecting branch returns an error
@@ -311,6 +323,23 @@ func checkEncoderShape(p *Prog, r *Report, kp func(string, string) string, fn *s
 			}
 		}
 	}
+	var pass *sizePass
+	if ms, ok := buf.(*ssa.MakeSlice); ok && !okSize {
+		if ex, ok := ms.Len.(*ssa.Extract); ok && ex.Index == 0 {
+			if c, ok := ex.Tuple.(*ssa.Call); ok && len(c.Call.Args) == 1 {
+				// the size comes from the first pass over the very slice whose elements are encoded
+				if u, ok := val.(*ssa.UnOp); ok {
+					if ia2, ok := u.X.(*ssa.IndexAddr); ok && ia2.X == c.Call.Args[0] {
+						if sp, call := sizePassBefore(fn, cv, ia2.X); sp != nil && call == c {
+							pass = sp
+							okSize = sp.PerC == 1
+							whyS = fmt.Sprintf("size = %s(values): 0 + Σ(%d + len(value))", FuncName(c.Call.StaticCallee()), sp.PerC)
+						}
+					}
+				}
+			}
+		}
+	}
 	r.Check(okSize, kp("LIN", fname+"#buffer-size=Σ(1+len)"), "the buffer has exactly one length byte plus the value's bytes per component", site, whyS, whyS)
 	// error branch: the block testing the bound has a failing successor
 	okErr := false
@@ -322,6 +351,9 @@ func checkEncoderShape(p *Prog, r *Report, kp func(string, string) string, fn *s
 				}
 			}
 		}
+	}
+	if !okErr && pass != nil && pass.HasErr {
+		okErr = true // the first pass rejects the oversized component and the encoder returns that error (checked by sizePassBefore)
 	}
 	r.Check(okErr, kp("GUARD", fname+"#oversize-is-an-error"), "a component longer than 255 bytes is rejected with an error", site, "the bound test has an error-returning branch", "no error-returning branch on the length test")
 }
@@ -682,4 +714,164 @@ func checkFrom(p *Prog, r *Report, kp func(string, string) string, kt *types.Nam
 			}
 		}
 	}
+}
+
+// ---- a first pass over the components in a helper ("compute the size, reject oversized components", then encode) ------------
+
+// sizePass describes a function  f(vals [][]byte) (int, error)  consisting of one range loop over its slice parameter whose body
+// rejects (error return) an element with len > Bound before adding  Per(len)  to the returned size, starting from 0.
+type sizePass struct {
+	Bound  int64 // every element has len <= Bound when the function returns a nil error
+	PerC   int64 // size grows by PerC + len(element) per element
+	HasErr bool
+}
+
+// sizePassOf recognises such a function (nil when fn is not one).
+func sizePassOf(fn *ssa.Function) *sizePass {
+	if fn == nil || fn.Blocks == nil || len(fn.Params) != 1 || fn.Signature.Results().Len() != 2 {
+		return nil
+	}
+	prm := fn.Params[0]
+	sp := &sizePass{Bound: -1}
+	// element loads: *(&prm[i])
+	isElemLen := func(v ssa.Value) bool {
+		c, ok := v.(*ssa.Call)
+		if !ok {
+			return false
+		}
+		b, isB := c.Call.Value.(*ssa.Builtin)
+		if !isB || b.Name() != "len" {
+			return false
+		}
+		u, ok := c.Call.Args[0].(*ssa.UnOp)
+		if !ok {
+			return false
+		}
+		ia, ok := u.X.(*ssa.IndexAddr)
+		return ok && ia.X == ssa.Value(prm)
+	}
+	// the bound test inside the loop with a failing branch
+	var test *ssa.BasicBlock
+	for _, b := range fn.Blocks {
+		if !inCycle(b) || len(b.Instrs) == 0 {
+			continue
+		}
+		iff, ok := b.Instrs[len(b.Instrs)-1].(*ssa.If)
+		if !ok {
+			continue
+		}
+		bo, ok := iff.Cond.(*ssa.BinOp)
+		if !ok {
+			continue
+		}
+		var lenV ssa.Value
+		var c *ssa.Const
+		if isElemLen(bo.X) {
+			lenV = bo.X
+			c, _ = bo.Y.(*ssa.Const)
+		}
+		if lenV == nil || c == nil {
+			continue
+		}
+		failT, failF := blockFails(b.Succs[0], 0), blockFails(b.Succs[1], 0)
+		switch {
+		case bo.Op == token.GTR && failT && !failF: // len > C fails
+			sp.Bound = c.Int64()
+		case bo.Op == token.GEQ && failT && !failF: // len >= C fails
+			sp.Bound = c.Int64() - 1
+		case bo.Op == token.LEQ && failF && !failT: // !(len <= C) fails
+			sp.Bound = c.Int64()
+		case bo.Op == token.LSS && failF && !failT:
+			sp.Bound = c.Int64() - 1
+		default:
+			continue
+		}
+		sp.HasErr = true
+		test = b
+	}
+	if test == nil {
+		return nil
+	}
+	// the returned size: a phi in the loop header  [entry: 0, back edge: phi + PerC + len(elem)]  returned on the nil-error return;
+	// the back edge must come from a block the bound test dominates (the element passed the test before it is counted)
+	okRet := false
+	for _, ret := range returnsOf(fn) {
+		if !isNilConst(ret.Results[1]) {
+			continue
+		}
+		phi, ok := ret.Results[0].(*ssa.Phi)
+		if !ok || len(phi.Edges) != 2 {
+			return nil
+		}
+		for k, e := range phi.Edges {
+			pred := phi.Block().Preds[k]
+			if !phi.Block().Dominates(pred) {
+				if c, isC := e.(*ssa.Const); !isC || c.Int64() != 0 {
+					return nil
+				}
+				continue
+			}
+			if !test.Dominates(pred) {
+				return nil
+			}
+			d := LinOf(e).Sub(LinOf(phi))
+			if len(d.Coef) != 1 {
+				return nil
+			}
+			for sym, co := range d.Coef {
+				if !strings.HasPrefix(sym, "len(") || co != 1 {
+					return nil
+				}
+			}
+			sp.PerC = d.C
+			okRet = true
+		}
+	}
+	if !okRet {
+		return nil
+	}
+	return sp
+}
+
+// sizePassBefore: fn calls a size pass on the slice `vals`, returns an error when it fails, and `at` is dominated by its success.
+func sizePassBefore(fn *ssa.Function, at ssa.Instruction, vals ssa.Value) (*sizePass, *ssa.Call) {
+	for _, b := range fn.Blocks {
+		for _, in := range b.Instrs {
+			c, ok := in.(*ssa.Call)
+			if !ok || c.Call.StaticCallee() == nil || len(c.Call.Args) != 1 || c.Call.Args[0] != vals {
+				continue
+			}
+			sp := sizePassOf(c.Call.StaticCallee())
+			if sp == nil {
+				continue
+			}
+			// err != nil → failing return; the success edge dominates `at`
+			for _, rf := range *c.Referrers() {
+				ex, ok := rf.(*ssa.Extract)
+				if !ok || ex.Index != 1 {
+					continue
+				}
+				for _, rf2 := range *ex.Referrers() {
+					bo, ok := rf2.(*ssa.BinOp)
+					if !ok || bo.Op != token.NEQ || !isNilConst(bo.Y) {
+						continue
+					}
+					blk := bo.Block()
+					iff, ok := blk.Instrs[len(blk.Instrs)-1].(*ssa.If)
+					if !ok || iff.Cond != ssa.Value(bo) {
+						continue
+					}
+					// then-branch: returns the helper's error (non-nil there); else-branch dominates at
+					thenRet, ok := blk.Succs[0].Instrs[len(blk.Succs[0].Instrs)-1].(*ssa.Return)
+					if !ok || len(thenRet.Results) == 0 || thenRet.Results[len(thenRet.Results)-1] != ssa.Value(ex) {
+						continue
+					}
+					if blk.Succs[1] == at.Block() || blk.Succs[1].Dominates(at.Block()) {
+						return sp, c
+					}
+				}
+			}
+		}
+	}
+	return nil, nil
 }
